@@ -26,6 +26,9 @@ CODE_TEXT = {
     15: "pending nonce is not the first missing nonce counted from the commit nonce",
     16: "txHashMap counts hashes whose slot is no longer in the pool (IsPoolFull over-reports)",
     17: "a ready transaction was not batched within ceil(ready/batchSize) generate+commit rounds",
+    21: "intake cache: a transaction set handed to the consumer changed afterwards",
+    22: "intake cache: the delivered sets are not the accepted transactions in order (each exactly once)",
+    23: "intake cache: an accepted and delivered transaction is not in the pool after all sets were processed",
 }
 # open finding id -> (model defect flag, failure codes it explains)
 # (a finding without a flag is behaviour the model reproduces unconditionally)
@@ -433,12 +436,228 @@ def shrink(ctx, pid, exe, h, bad, cfg_term, excused, budget=14):
     return cur
 
 
+# ----------------------------------------------------------------------------- intake cache leg (C19)
+
+class IntakeSim:
+    """python mirror of Model/TxCache.v, only used to generate sensible histories"""
+    def __init__(self, size):
+        self.size = size or 10
+        self.q, self.buf, self.pend = [], [], None
+
+    def norm(self):
+        while self.pend is None and self.q:
+            self.buf.append(self.q.pop(0))
+            if len(self.buf) >= self.size:
+                self.pend, self.buf = self.buf, []
+
+    def recv(self, txs):
+        self.q += txs
+        self.norm()
+
+    def take(self):
+        got = self.pend
+        if got is not None:
+            self.pend = None
+            self.norm()
+        return got
+
+    def tick(self):
+        if self.pend is None:
+            self.pend, self.buf = self.buf, []
+            return True
+        return False
+
+
+def gen_intake(r, malformed=False):
+    size = r.choice([1, 2, 2, 3, 4]) if not malformed else r.choice([0, 1, 2])
+    naccts = r.choice([1, 1, 2])
+    nxt = [0] * naccts
+    nid = [1]
+    sim = IntakeSim(size)
+    ops, univ = [], []
+
+    def fresh():
+        a = r.randrange(naccts)
+        t = [a, nxt[a], nid[0], 100 + nid[0]]
+        nxt[a] += 1
+        nid[0] += 1
+        univ.append(t)
+        return t
+
+    def drain_takes():
+        while sim.pend is not None:
+            ops.append([1]); sim.take()
+
+    for _ in range(r.randrange(1, 5)):
+        k = (size or 3) * r.choice([1, 2, 2, 3]) - r.choice([0, 0, 1]) if not malformed else r.choice([0, 1, 5])
+        burst = [fresh() for _ in range(max(k, 0))]
+        if malformed and burst and r.random() < 0.5:
+            burst.append(burst[0])                     # the same transaction accepted twice
+        ops.append([0, burst]); sim.recv(list(burst))
+        x = r.random()
+        if x < 0.55:
+            # the consumer is slow: it takes the sets only now, one after the other, keeping every one
+            drain_takes()
+        elif x < 0.75:
+            if sim.pend is not None:
+                ops.append([1]); sim.take()
+        if r.random() < (0.35 if not malformed else 0.6):
+            ops.append([2]); sim.tick()
+            if malformed and r.random() < 0.5:
+                ops.append([2]); sim.tick()           # second timer event while the set is on offer
+        if malformed and r.random() < 0.3:
+            ops.append([1]); sim.take()
+    # empty the cache: take what is offered, nothing more on offer, timer, take, nothing on offer
+    drain_takes()
+    ops.append([1]); sim.take()
+    ops.append([2]); sim.tick()
+    ops.append([1]); sim.take()
+    ops.append([1]); sim.take()
+    return dict(mode="txcache", size=size, naccts=naccts, univ=universe_intake(ops), ops=ops,
+                tag="intake-malformed" if malformed else "intake")
+
+
+def universe_intake(ops):
+    u, seen = [], set()
+    for op in ops:
+        if op[0] == 0:
+            for t in op[1]:
+                if tuple(t) not in seen:
+                    seen.add(tuple(t)); u.append(list(t))
+    return u
+
+
+def intake_case_term(h, out):
+    univ = h["univ"]
+    idx = {tuple(t): i for i, t in enumerate(univ)}
+    nu = len(univ)
+
+    def ixs(l):
+        return glist([idx.get(tuple(t), nu) for t in l])
+
+    def opt(l):
+        return "None" if l is None else "(Some %s)" % ixs(l)
+
+    def g_op(o):
+        return "(JORecv %s)" % ixs(o[1]) if o[0] == 0 else "JOTake" if o[0] == 1 else "JOTick"
+
+    def g_step(s):
+        if s["k"] == 0:
+            return "JRecv"
+        if s["k"] == 1:
+            return "(JTake %s %s)" % (opt(s.get("set")), opt(s.get("prev")))
+        return "(JTick %s)" % gbool(s.get("ok"))
+
+    held = out.get("held") or []
+    return "(mkICase %d %s %s %s %s %s)" % (h["size"], glist(univ, g_tx), glist(h["ops"], g_op), glist(out.get("steps", []), g_step),
+                                            glist([ixs(l) for l in (out.get("end") or [])]), glist([gbool(b) for b in held]))
+
+
+def judge_intake(ctx, hists, outs, name):
+    rows = [intake_case_term(h, o) for h, o in zip(hists, outs)]
+    src = ("From BX Require Import Base.Prelude Model.Mempool Model.TxCache.\nLocal Open Scope N_scope.\n"
+           "Definition cases : list icase :=\n %s.\n"
+           "Definition M := Eval vm_compute in map judge_intake cases.\nPrint M.\n") % glist(rows)
+    rc, out = vlib.coq_eval("%s_%d" % (name, os.getpid()), src, timeout=600)
+    vs = vlib.parse_verdicts(out)
+    if rc != 0 or vs is None or len(vs) != len(hists):
+        ctx.broken("correspondence:judge_intake", out[-1500:])
+        return None
+    return vs
+
+
+def run_intake_impl(exe, hists):
+    lines = [dict(size=h["size"], naccts=h["naccts"], univ=h["univ"], ops=h["ops"]) for h in hists]
+    rc, outs, e = vlib.run_driver(exe, "txcache", lines, timeout=900)
+    if rc != 0 or len(outs) != len(hists):
+        return None, (e or "")[-1500:]
+    return outs, ""
+
+
+def shrink_intake(ctx, exe, h, v):
+    cur = h
+    for _ in range(8):
+        cands = []
+        ops = cur["ops"]
+        for i in range(len(ops)):
+            cands.append(ops[:i] + ops[i + 1:])
+        for i, o in enumerate(ops):
+            if o[0] == 0 and len(o[1]) > 1:
+                cands.append(ops[:i] + [[0, o[1][:-1]]] + ops[i + 1:])
+        hs = [dict(cur, ops=c, univ=universe_intake(c)) for c in cands[:80]]
+        if not hs:
+            break
+        outs, err = run_intake_impl(exe, hs)
+        if outs is None:
+            break
+        vs = judge_intake(ctx, hs, outs, "C19_intake_shrink")
+        if vs is None:
+            break
+        nxt = None
+        for hh, vv in zip(hs, vs):
+            if vv == v and (nxt is None or len(json.dumps(hh["ops"])) < len(json.dumps(nxt["ops"]))):
+                nxt = hh
+        if nxt is None:
+            break
+        cur = nxt
+    return cur
+
+
+def run_intake_leg(ctx, exe):
+    """C19: the intake cache in front of the pool (tx_cache.go) - real TxCache + ListenEvent goroutine, a consumer
+    that keeps every set and re-reads it after later sets arrived, all sets fed to a real pool"""
+    r = ctx.rng
+    hists = []
+    for f in sorted(os.listdir(vlib.CORPUS)):
+        if f.startswith("C19_intake"):
+            obj = json.load(open(os.path.join(vlib.CORPUS, f)))
+            hists.append(dict(mode="txcache", size=obj["size"], naccts=obj["naccts"], univ=universe_intake(obj["ops"]),
+                              ops=obj["ops"], tag="corpus:" + f))
+    n, nm = (36, 10) if ctx.quick else (1500, 300)
+    hists += [gen_intake(r) for _ in range(n)] + [gen_intake(r, malformed=True) for _ in range(nm)]
+    outs, err = run_intake_impl(exe, hists)
+    if outs is None:
+        ctx.broken("driver:txcache", err)
+        return
+    vs = []
+    for i in range(0, len(hists), 400):
+        part = judge_intake(ctx, hists[i:i + 400], outs[i:i + 400], "C19_intake_%d" % (i // 400))
+        if part is None:
+            return
+        vs += part
+    dist = {}
+    seen = set()
+    for h, o, v in zip(hists, outs, vs):
+        ctx.traces_validated += 1
+        nsets = len(o.get("end") or [])
+        ctx.count(case_key="intake:" + json.dumps(h["ops"]), nontrivial=nsets >= 2,
+                  sample=dict(driver="txcache", tag=h["tag"], size=h["size"], ops=len(h["ops"]), sets=nsets, verdict=v))
+        dist[h["tag"].split(":")[0]] = dist.get(h["tag"].split(":")[0], 0) + 1
+        dist["sets_%d" % min(nsets, 6)] = dist.get("sets_%d" % min(nsets, 6), 0) + 1
+        if v[0] == 0:
+            continue
+        kind = (v[0], v[1] if v[0] == 2 else 0)
+        if kind in seen:
+            continue
+        seen.add(kind)
+        small = shrink_intake(ctx, exe, h, v)
+        so, _ = run_intake_impl(exe, [small])
+        rep = dict(property="C19", driver="txcache", mode="txcache", size=small["size"], naccts=small["naccts"], ops=small["ops"],
+                   impl=so[0] if so else None, verdict=list(v), original_ops=len(h["ops"]))
+        if v[0] == 2:
+            rep["what"] = CODE_TEXT.get(v[1], "code %d" % v[1])
+            ctx.violation(rep["what"], rep)
+        else:
+            ctx.broken("correspondence:judge_intake", "first differing case: " + json.dumps(rep)[:1500])
+    ctx.extra["intake_distribution"] = dist
+
+
 # ----------------------------------------------------------------------------- the check
 
 def corpus_histories(pid):
     hs = []
     for f in sorted(os.listdir(vlib.CORPUS)):
-        if f.startswith("C18_") or f.startswith("C19_"):
+        if (f.startswith("C18_") or f.startswith("C19_")) and not f.startswith("C19_intake"):
             try:
                 obj = json.load(open(os.path.join(vlib.CORPUS, f)))
             except ValueError:
@@ -460,7 +679,7 @@ def explain(v):
 
 
 def run(ctx, pid):
-    ctx.proofs(["Proofs/MempoolProofs"], model_targets=["Mempool", "MempoolSpec"])
+    ctx.proofs(["Proofs/MempoolProofs", "Proofs/TxCacheCompose"], model_targets=["Mempool", "MempoolSpec", "TxCache"])
     exe, err = vlib.build_harness("mempool")
     if exe is None:
         ctx.broken("harness-build", err)
@@ -470,6 +689,8 @@ def run(ctx, pid):
     opened = open_findings()
     cfg_term = current_cfg(opened)
     excused = sorted({c for i in opened for c in FINDING_FLAGS[i][1] if c in CODES[pid]})
+    if pid == "C19":
+        run_intake_leg(ctx, exe)
     r = ctx.rng
     hists = corpus_histories(pid)
     ncorpus = len(hists)
@@ -551,11 +772,24 @@ def run(ctx, pid):
                            "unknown commits, generate+commit rounds, age eviction, SetBatchSeqNo, restart) + malformed stream (empty and repeated "
                            "lists, defaults, huge nonces and clocks); thorough adds longer histories and all sequences of length 4-5 over a "
                            "small alphabet; non-trivial = a non-empty batch was produced and a submission was rejected or a held transaction left the pool; "
-                           "distinct by operation list")
+                           "distinct by operation list; C19 also: intake cache leg (real TxCache + ListenEvent goroutine in front of a real pool; "
+                           "set sizes 0(default)..4, bursts of 1-3 x setSize accepted transactions, slow consumer that keeps every set and re-reads it "
+                           "after later sets arrived, timer events, drained at the end; non-trivial = at least two sets delivered)")
 
 
 def replay(ctx, pid, path):
     obj = json.load(open(path))
+    if obj.get("mode") == "txcache":
+        exe, err = vlib.build_harness("mempool")
+        if exe is None:
+            print("harness build failed", err)
+            return 1
+        h = dict(mode="txcache", size=obj["size"], naccts=obj["naccts"], univ=universe_intake(obj["ops"]), ops=obj["ops"], tag="replay")
+        outs, err = run_intake_impl(exe, [h])
+        vs = judge_intake(ctx, [h], outs, "C19_intake_replay") if outs else None
+        print(json.dumps(dict(ops=h["ops"], impl=outs[0] if outs else None, verdict=vs[0] if vs else None,
+                              what=(CODE_TEXT.get(vs[0][1], "") if vs and vs[0][0] == 2 else "ok" if vs and vs[0][0] == 0 else "mismatch") if vs else err)))
+        return 0 if vs and vs[0][0] == 0 else 1
     if "ops" not in obj:
         print(json.dumps(dict(note="replay file names a broken obligation, no history", file=path)))
         return 1
